@@ -3,11 +3,19 @@
 drawn, only getters are called.  Events are appended to the worker's trace:
 
   ["c05cov",  day, method, site, eqg, comp, k, emission_id, repairable, start_day, rate,
-              stored_before, stored_after, emitting]       every Emission.check_spatial_cov call
+              stored_before, stored_after, emitting, own_probability, [[p, result], ...]]
+                                                            every Emission.check_spatial_cov call; the last two:
+                                                            this emission's coverage probability for the method and
+                                                            the Bernoulli draws made inside the call
   ["c05tcov", day, method, k, outcome]                      every Emission.check_temporal_cov call
   ["c05rep",  day, method, site, level, mdl, site_true, site_measured,
               [[eqg, comp | None, true, measured], ...], ret]   after every Default*LevelSensor.detect_emissions
 k is a serial number of the emission object (stable for the run of one program/simulation).
+
+If the configuration carries "c05_prior_files" (parameter files of another, already materialised
+configuration), that simulation is run FIRST in this same worker process (before the wrappers are
+installed): the main run then happens in a process that has already simulated the same method names
+with other coverage probabilities.
 """
 from __future__ import annotations
 
@@ -18,6 +26,27 @@ import sys
 def install(job):
     w = sys.modules["__main__"]
     EVENTS, CTXT, di = w.EVENTS, w.CTXT, w.di
+    prior = job.get("cfg", {}).get("c05_prior_files")
+    if prior:
+        from pathlib import Path
+        from ldar_sim_run import run_ldar_sim
+
+        run_ldar_sim([Path(f) for f in prior], DEBUG=True)
+    from virtual_world.emission_types import emission as emission_mod
+
+    DRAWS = []
+    real_binomial = emission_mod.binomial
+
+    @functools.wraps(real_binomial)
+    def binomial(n, p, *a, **k):
+        r = real_binomial(n, p, *a, **k)
+        try:
+            DRAWS.append([float(p), int(r)])
+        except Exception:
+            pass
+        return r
+
+    emission_mod.binomial = binomial
     from virtual_world.sites import Site
     from virtual_world.equipment_groups import Equipment_Group
     from virtual_world.component import Component
@@ -61,13 +90,16 @@ def install(job):
     def check_spatial_cov(self, method):
         key = f"{method} Spatial Coverage"
         before = self._tech_spat_covs.get(key)
+        n0 = len(DRAWS)
         out = orig_sc(self, method)
         after = self._tech_spat_covs.get(key)
+        draws = DRAWS[n0:]
+        del DRAWS[:]
         try:
             EVENTS.append(["c05cov", CTXT["day"], method, LOC["site"], LOC["eqg"], LOC["comp"], serial(self),
                            self._emissions_id, bool(self._repairable), di(self._start_date), float(self._rate),
                            None if before is None else int(before), None if after is None else int(after),
-                           bool(self.is_emitting())])
+                           bool(self.is_emitting()), float(self._tech_spat_cov_probs[method]), draws])
         except Exception as e:  # never disturb the run
             EVENTS.append(["c05-error", repr(e)])
         return out
